@@ -13,7 +13,8 @@ use std::path::Path;
 pub struct Step {
     /// index into ADVANCES
     pub advance: u8,
-    /// 0 set, 1 put, 2 get+read, 3 get without reading, 4 touch, 5 ensure, 6 forced maintenance (prune to n-1)
+    /// 0 set, 1 put, 2 get+read, 3 get without reading, 4 touch, 5 ensure, 6 forced maintenance (prune to n-1),
+    /// 7 the entry is re-dated one hour into the FUTURE behind the library's back (a peer with a fast clock)
     pub op: u8,
     pub key: u8,
     pub fire: bool,
@@ -37,7 +38,7 @@ const GRANS: &[i64] = &[1, 1_000_000_000, 2_000_000_000];
 const PHASES: &[i128] = &[0, 300_000_000, 999_999_999, 1_500_000_000];
 
 fn gen_hist() -> impl Strategy<Value = Hist> {
-    (0u8..4, 0u8..3, 0u8..4, 0u8..3, 0u8..3, prop::collection::vec((0u8..6, 0u8..7, 0u8..4, prop::bool::weighted(0.5)), 1..26)).prop_map(|(policy, gran, phase, fe, cap_sel, steps)| Hist {
+    (0u8..4, 0u8..3, 0u8..4, 0u8..3, 0u8..3, prop::collection::vec((0u8..6, prop_oneof![12 => 0u8..7, 1 => Just(7u8)], 0u8..4, prop::bool::weighted(0.5)), 1..26)).prop_map(|(policy, gran, phase, fe, cap_sel, steps)| Hist {
         policy,
         gran: if policy == 0 { 0 } else { gran },
         phase,
@@ -103,6 +104,18 @@ pub fn judge(root: &Path, h: &Hist) -> Result<Outcome, (String, String)> {
                 _ => OpKind::Get, // placeholder, maintenance handled below
             };
             let existed_at = prev.iter().find(|(p, e)| e.kind == 'f' && !p.contains(".kismet_temp") && p.rsplit('/').next() == Some(ks.name.as_str())).map(|(p, e)| (p.clone(), e.clone()));
+            if st.op == 7 {
+                // skew: only the timestamps of an existing entry change (unmarked, one hour ahead)
+                if let Some((p, _)) = &existed_at {
+                    // (stored timestamps respect the emulated granularity)
+                    let m0 = vnow + 3_600_000_000_000;
+                    let m = m0 - m0.rem_euclid(gran as i128);
+                    let _ = set_times_ns(&w_root.join(p), m - 120_000_000_000, m);
+                    prev = snapshot(&w_root);
+                }
+                out.steps += 1;
+                continue;
+            }
             if st.op == 6 {
                 // forced maintenance: prune every directory holding entries down to n-1
                 let dirs: Vec<String> = {
@@ -246,6 +259,9 @@ pub fn judge(root: &Path, h: &Hist) -> Result<Outcome, (String, String)> {
                 }
                 for (p, o) in cur.iter().filter(|(p, o)| o.kind == 'f' && !p.contains(".kismet_temp") && **p != path && p.rsplit_once('/').map(|x| x.0.to_string()).unwrap_or_default() == dir) {
                     let oname = p.rsplit('/').next().unwrap();
+                    if o.mtime > vnow + 60_000_000_000 {
+                        continue; // dated in the future by a skewed peer: nothing written now can be behind it
+                    }
                     if o.mtime > e.mtime {
                         return Err(("c09:fresh-entry-not-newest".into(), format!("{}: freshly written entry {} (mtime {}) is older than {} (mtime {})", ctx(), path, e.mtime, p, o.mtime)));
                     }
@@ -276,8 +292,15 @@ pub fn judge(root: &Path, h: &Hist) -> Result<Outcome, (String, String)> {
                         return Err(("c09:reordered".into(), format!("{}: queue position changed: mtime {} -> {}", ctx(), pe.mtime, e.mtime)));
                     }
                     let found = matches!(ret, Ret::File(_) | Ret::Bool(true) | Ret::Unit);
-                    if found && e.atime < e.mtime && !moved_back {
-                        return Err(("c09:not-marked".into(), format!("{}: after a successful {} the entry is not recognisable as used (atime {} < mtime {})", ctx(), ["set", "put", "get (handle read)", "get (handle not read)", "touch", "ensure"][st.op as usize], e.atime, e.mtime)));
+                    // An entry dated in the future (clock skew between writers, outside the property's
+                    // quantifier): the library's lookup marks it (atime := mtime), but touch and put-onto-
+                    // existing stamp the local "now", and so does the kernel when the handle is then READ
+                    // (relatime/strict: atime <= mtime => atime := now). Only a lookup whose handle is not
+                    // read shows the library's own doing, so only that one is demanded on skewed entries.
+                    let skewed = pe.mtime > vnow + 60_000_000_000;
+                    let stamps_now = st.op != 3;
+                    if found && e.atime < e.mtime && !moved_back && !(skewed && stamps_now) {
+                        return Err(("c09:not-marked".into(), format!("{}: after a successful {} the entry is not recognisable as used (atime {} < mtime {})", ctx(), ["set", "put", "get (handle read)", "get (handle not read)", "touch", "ensure", "", ""][st.op as usize], e.atime, e.mtime)));
                     }
                 }
             } else {
